@@ -70,7 +70,7 @@ def o_fields(inp):
     fields, entry, blocks = _mk(inp)
     lib = Library(blocks)
     others_before = [canon(b) for b in blocks if b is not entry]
-    out = libgen.maybe_preuse(mw, inp["keys"]).transform(lib)
+    out = libgen.maybe_preuse(mw, inp["keys"], same=lib).transform(lib)
     if len(out.blocks) != 4:
         return (("block-count", repr(out.blocks), "4 blocks"), True, cls)
     e = out.blocks[1]
